@@ -289,6 +289,12 @@ pub(crate) struct CacheParams {
     position: usize,
     headers: HeaderCollection,
 }
+impl CacheParams {
+    /// The transformed request headers these parameters were created from.
+    pub(crate) fn into_headers(self) -> HeaderCollection {
+        self.headers
+    }
+}
 
 #[derive(Debug, Clone)]
 /// A collection of multiple responses depending on the headers the client sent,
